@@ -77,6 +77,19 @@ def run(tier):
                             break
                 if flavour == 'pytz' and I == 5:
                     chk.sample({'model_case': {k: cases[len(cases) // 2][k] for k in ('I', 'H', 'chg', 'vals', 'recorded', 'items', 'all', 'env')}})
+    # ---- 1b. several generators in one process: each data set belongs to its generator
+    for flavour in ('pytz', 'dateutil'):
+        sp = os.path.join(work, 'datasets_%s.json' % flavour)
+        op = os.path.join(work, 'datasets_out_%s.json' % flavour)
+        json.dump({'flavour': flavour}, open(sp, 'w'))
+        rc, out, err, _ = common.run_cmd([common.PY, DRV, 'datasets', sp, op], env=env, timeout=1800)
+        if rc != 0:
+            chk.violation('%s:datasets-crash' % flavour, 'generator driver failed: %s' % err[-1200:], {'stderr': err[-2500:]})
+            continue
+        ds = json.load(open(op))
+        for pb in ds['problems']:
+            chk.violation('%s:data-set' % flavour, pb, {'flavour': flavour})
+        chk.add(**{'items_in_multi_generator_data_sets_%s' % flavour: ds['items']})
     # ---- 2. real zones of the installed libraries: completeness against the library's own transition table, item fidelity
     ranges = [(2000, 2038, 22), (2005, 2010, 24), (2000, 2006, 48), (2009, 2012, 36), (2000, 2004, 22), (2004, 2006, 22)] if tier == 'quick' else [(2000, 2038, 22), (2005, 2010, 24), (2000, 2020, 6), (2010, 2038, 48), (2000, 2038, 1), (2000, 2006, 36), (2000, 2004, 22), (2004, 2006, 22), (2011, 2013, 12)]
     import pytz
